@@ -551,12 +551,14 @@ class SqlalchemyRender:
                 if isinstance(col.default, str):
                     default = sa.text(col.default)
 
-            if isinstance(col.type, str) and col.type.lower() == 'serial':
-                col.is_primary_key = True
-                col.type = 'INT'
+            col_type, is_primary_key = col.type, col.is_primary_key
+            if isinstance(col_type, str) and col_type.lower() == 'serial':
+                # don't change the query: it belongs to the caller
+                is_primary_key = True
+                col_type = 'INT'
 
             kwargs = {
-                'primary_key': col.is_primary_key,
+                'primary_key': is_primary_key,
                 'server_default': default,
             }
             if col.nullable is not None:
@@ -565,7 +567,7 @@ class SqlalchemyRender:
             columns.append(
                 sa.Column(
                     col.name,
-                    self.get_type(col.type),
+                    self.get_type(col_type),
                     **kwargs
                 )
             )
